@@ -555,3 +555,87 @@ package xpath
 //@   ensures implies(tree_nav_err(ctx.current, old(toppath(ctx))) != nil, ctx.res.runErr == tree_nav_err(ctx.current, old(toppath(ctx))))
 //@   ensures implies(tree_nav_err(ctx.current, old(toppath(ctx))) == nil, tree_lref_err(askedNode(ctx)) == nil && ctx.res.runErr == old(ctx.res.runErr) &&
 //@           len(pstk(ctx)) == old(len(pstk(ctx))) && toppath(ctx) == tree_path(tree_lref(askedNode(ctx))))
+
+// ---------------------------------------------------------------------------
+// Lexer character classes (C04): exactly the XML NCName characters and the XPath whitespace set.
+//@ func (*CommonLex).IsNameStartChar
+//@   nopanic
+//@   ensures result == xml_ncnamestart(c)
+//@ func (*CommonLex).IsNameChar
+//@   nopanic
+//@   ensures result == xml_ncnamechar(c)
+//@ func (*CommonLex).isWhitespace
+//@   nopanic
+//@   ensures result == xp_whitespace(c)
+
+// Name classification (XPath 1.0 section 3.7 and productions [6], [32], [38]).
+//@ func (*CommonLex).getOperatorName
+//@   requires x != nil
+//@   modifies x.err
+//@   nopanic
+//@   ensures implies(name == "and", result == xutils.AND) && implies(name == "or", result == xutils.OR) && implies(name == "mod", result == xutils.MOD) && implies(name == "div", result == xutils.DIV)
+//@   ensures iff(result == xutils.ERR, !(name == "and" || name == "or" || name == "mod" || name == "div"))
+//@   ensures implies(result == xutils.ERR, x.err != nil) && implies(result != xutils.ERR, x.err == old(x.err))
+//@ func (*CommonLex).nameIsNodeType
+//@   nopanic
+//@   ensures result == (name == "comment" || name == "text" || name == "processing-instruction" || name == "node")
+//@ func (*CommonLex).nameIsAxisName
+//@   nopanic
+//@   ensures result == (name == "ancestor" || name == "ancestor-or-self" || name == "attribute" || name == "child" || name == "descendant" ||
+//@           name == "descendant-or-self" || name == "following" || name == "following-sibling" || name == "namespace" || name == "parent" ||
+//@           name == "preceding" || name == "preceding-sibling" || name == "self")
+
+// '*' is the multiply operator exactly when an operator may follow the preceding token, otherwise a wildcard name test.
+//@ func (*CommonLex).LexAsterisk
+//@   requires x != nil
+//@   nopanic
+//@   ensures iff(result0 == '*', old(canFollowOperand(x)))
+//@   ensures iff(result0 == xutils.NAMETEST, !old(canFollowOperand(x)))
+//@ define canFollowOperand(x) = !(x.precToken == xutils.EOF || x.precToken == '@' || x.precToken == xutils.DBLCOLON ||
+//@           x.precToken == '(' || x.precToken == '[' || x.precToken == ',' ||
+//@           x.precToken == xutils.AND || x.precToken == xutils.OR || x.precToken == xutils.MOD || x.precToken == xutils.DIV ||
+//@           x.precToken == '*' || x.precToken == '/' || x.precToken == xutils.DBLSLASH || x.precToken == '|' ||
+//@           x.precToken == '+' || x.precToken == '-' || x.precToken == xutils.EQ || x.precToken == xutils.NE ||
+//@           x.precToken == xutils.LT || x.precToken == xutils.LE || x.precToken == xutils.GT || x.precToken == xutils.GE)
+
+// Next: the remaining input is peek (if set) followed by line; an invalid UTF-8 byte yields ERR.
+//@ define nextRune(x) = ite(x.peek != xutils.EOF, x.peek, ite(len(x.line) == 0, xutils.EOF, ite(x.line[0] < 128, x.line[0], -2)))
+//@ func (*CommonLex).Next
+//@   requires x != nil
+//@   modifies x.peek
+//@   modifies x.line
+//@   nopanic
+//@   ensures x.peek == xutils.EOF
+//@   ensures implies(old(x.peek) != xutils.EOF, result == old(x.peek) && x.line == old(x.line))
+//@   ensures implies(old(x.peek) == xutils.EOF && old(len(x.line)) == 0, result == xutils.EOF && x.line == old(x.line))
+//@   ensures implies(old(x.peek) == xutils.EOF && old(len(x.line)) > 0, len(x.line) < old(len(x.line)) && sameArray(x.line, old(x.line)))
+//@   ensures implies(old(x.peek) == xutils.EOF && old(len(x.line)) > 0 && old(x.line[0]) < 128, result == old(x.line[0]) && len(x.line) == old(len(x.line)) - 1)
+//@   ensures implies(old(x.peek) == xutils.EOF && old(len(x.line)) > 0 && old(x.line[0]) >= 128, result >= 128)
+
+// Two-character tokens: '//' '..' '::' '<=' '>=' '!='; the look-ahead character is put back when it does not belong to the token.
+//@ func (*CommonLex).LexSlash
+//@   requires x != nil
+//@   modifies x.peek
+//@   modifies x.line
+//@   nopanic
+//@   ensures implies(old(nextRune(x)) == '/', result0 == xutils.DBLSLASH && x.peek == xutils.EOF)
+//@   ensures implies(old(nextRune(x)) != '/' && old(nextRune(x)) != -2, result0 == '/' && x.peek == old(nextRune(x)))
+//@ func (*CommonLex).LexColon
+//@   requires x != nil
+//@   modifies x.peek
+//@   modifies x.line
+//@   modifies x.err
+//@   nopanic
+//@   ensures implies(old(nextRune(x)) == ':', result0 == xutils.DBLCOLON && x.err == old(x.err))
+//@   ensures implies(old(nextRune(x)) != ':' && old(nextRune(x)) != -2, result0 == xutils.ERR && x.err != nil)
+//@ func (*CommonLex).LexRelationalOperator
+//@   requires x != nil
+//@   modifies x.peek
+//@   modifies x.line
+//@   modifies x.err
+//@   nopanic
+//@   ensures implies(c == '=', result0 == xutils.EQ)
+//@   ensures implies(c == '>' && old(nextRune(x)) == '=', result0 == xutils.GE) && implies(c == '>' && old(nextRune(x)) != '=' && old(nextRune(x)) != -2, result0 == xutils.GT && x.peek == old(nextRune(x)))
+//@   ensures implies(c == '<' && old(nextRune(x)) == '=', result0 == xutils.LE) && implies(c == '<' && old(nextRune(x)) != '=' && old(nextRune(x)) != -2, result0 == xutils.LT && x.peek == old(nextRune(x)))
+//@   ensures implies(c == '!' && old(nextRune(x)) == '=', result0 == xutils.NE) && implies(c == '!' && old(nextRune(x)) != '=' && old(nextRune(x)) != -2, result0 == xutils.ERR && x.err != nil)
+//@   ensures implies(c != '=' && c != '>' && c != '<' && c != '!', result0 == xutils.ERR && x.err != nil)
